@@ -28,6 +28,10 @@ fn cmp(out: &mut Outcome, what: &str, got: Result<(Vec<usize>, Vec<f64>), String
     }
 }
 
+fn id_hash(shape: &[usize], orig: &[usize]) -> usize {
+    shape.iter().chain(orig.iter()).fold(7usize, |h, x| h.wrapping_mul(31).wrapping_add(*x))
+}
+
 pub fn run(case: &Value, ctx: &Ctx) -> Outcome {
     let mut out = Outcome::default();
     let shape = usizes(&case["shape"]);
@@ -77,6 +81,11 @@ pub fn run(case: &Value, ctx: &Ctx) -> Outcome {
                 let r = cli::sfs(ctx, &args, Some(input));
                 let got = if r.ok() { cli::parse_text(&r.stdout) } else { Err(format!("exit {:?}: {}", r.code, r.stderr)) };
                 cmp(&mut out, what, got, &sym.shape, &want, 0.0, json!({"args": args}));
+            }
+            // naming a kept axis twice keeps it once
+            let mut keep = keep;
+            if id_hash(&shape, &orig) % 3 == 0 && !keep.is_empty() {
+                keep.insert(0, keep[0].clone());
             }
             let keeps = keep.join(",");
             let r = cli::sfs(ctx, &["view", "-M", &keeps, "-O", "npy"], Some(&text));
